@@ -15,16 +15,19 @@ import (
 
 func c07Specs(tier string) []*h.SeqSpec {
 	f := StdFix()
+	// A6: an artifact of I1 that is only ever addressed by its sha512 digest (push and delete)
+	a6 := f.Image("A6", mtImg, "e", nil, "I1", "application/x.test", map[string]string{"k": "a6"})
+	a6.Dig = h.Dig("sha512", a6.Data)
 	const repo = "r"
-	arts := []string{"A1", "A2", "A3"} // A1 and A3 share an artifactType: a filtered list can span pages
-	depth := 5
+	arts := []string{"A1", "A2", "A3", "A6"} // A1 and A3 share an artifactType: a filtered list can span pages; A6 is addressed by sha512
+	depth := 4
 	if tier == "thorough" {
-		arts = []string{"A1", "A2", "A3", "A4", "A5", "AX2"}
+		arts = []string{"A1", "A2", "A3", "A4", "A5", "AX2", "A6"}
 		depth = 5
 	}
 	tags := []string{"t", "u"}
 	// limits: one descriptor per page, two per page, default
-	big := refDesc(f.Items["A1"])
+	big := refDesc(f.Items["A6"]) // the largest descriptor of the universe (sha512 digest): every entry fits on a page of its own
 	one := int64(len(h.Index(mtIdx, []h.Desc{big}, nil, "", nil))) + 8
 	two := int64(len(h.Index(mtIdx, []h.Desc{big, big}, nil, "", nil))) + 8
 	type lim struct {
@@ -58,6 +61,9 @@ func c07Specs(tier string) []*h.SeqSpec {
 			}
 			for _, a := range arts {
 				for _, t := range tags {
+					if a == "A6" {
+						continue // pushed by tag it would be stored under its sha256 digest: another entry, not this one
+					}
 					if t == "u" && a != arts[0] && tier != "thorough" {
 						continue
 					}
